@@ -21,7 +21,6 @@
 # Round trip: the header receiver reports exactly the header sent (with the reference CRCs) and never bad_packet /
 # bad_sequence; for data packets the data receiver reports the header, delivers exactly the payload bytes and strobes
 # packet_good, never packet_bad.
-import struct
 from rtlmc.model import Design, Violation
 from rtlmc.explore import Spec
 from harness import _usb3ref as ref
@@ -32,7 +31,7 @@ TECHNIQUE = ("explicit-state model checking (per-cycle BFS, all ready patterns, 
              "encoders written from the USB 3.2 specification and calibrated on the repository's recorded packets")
 
 MAXSTART = 3      # cycles from the request to HPSTART being driven
-MAXLAT = 3        # cycles after a word within which the receivers must have reported
+MAXLAT = 3        # cycles after DW3 within which the header receiver must have reported
 
 HDR_FIELDS = ("dw0", "dw1", "dw2", "crc16", "sequence_number", "dw3_reserved", "hub_depth", "delayed", "deferred", "crc5")
 
@@ -81,7 +80,7 @@ def wide_alphabet(tier, consistent_length):
             dws = [0, 0, 0]; dws[w] = 1 << b
             h = hdr(*dws, seq=b & 7)
             if is_data(h): out += [(with_len(h, 0), b""), (with_len(h, 5), payload_bytes(5, 0))]
-            elif not (consistent_length and False): out.append((h, None))
+            else: out.append((h, None))
     # dense values and the recorded packets
     for dws in ((0xFFFFFFF7, 0xFFFFFFFF, 0xFFFFFFFF), (0xA5A5A5A4, 0x5A5A5A5A, 0xC3C3C3C3), (0x00000280, 0x00010004, 0),
                 (0x00000004, 0x12345678, 0x9ABCDEF0), (0x0000000C, 0xFFFF0000, 0x0000FFFF)):
